@@ -7,9 +7,16 @@ Sequential cases: `key k h1 h2`, `usehash 1|2`, `put k v`, `del k`, `pappend k c
 reads `get`, `plist`, `listkeys => <listing> <dump>`, `dump => <dump>`.
 Crash cases: `plan <op…>` (records the planned history), `ref n => <dump>` (real store, uncrashed, after n
 planned calls), `recovered <acked> <issued> => <dump>|openfail` (real store re-opened after SIGKILL).
+Deadline cases (the call's context ends while it runs): `dl <mode> <op…> => <result>` (`error` = the context's
+error / ErrTxDone: not acknowledged), `dlref => <result> <dump>` (a second real store that executes, without
+deadline, the calls that were acknowledged), `dlstate => <dump>` (the store under test after the call),
+`dlreopen => <dump>|openfail` (closed and re-opened).
 DIFF: model result / table dump differs.  SPEC (property statement, decided on the implementation's own
 output): tracker rows inconsistent with the data tables, listing inconsistent with the data tables,
-re-open failed, or recovered state not equal to the uncrashed state after any prefix n, acked ≤ n ≤ issued. -/
+re-open failed, recovered state not equal to the uncrashed state after any prefix n, acked ≤ n ≤ issued,
+an acknowledged call that the store does not show (tables differ from those of the uncancelled run of the
+acknowledged calls), an unacknowledged call that left part of its effect, a re-opened store that differs
+from the store before closing. -/
 namespace Specter.C23
 open Specter.Util
 
@@ -21,6 +28,9 @@ structure DState where
   keys : List String := []
   plan : List Op := []
   refs : List (Nat × String) := []
+  last : String := "S:;P:;L:;T:"          -- deadline cases: tables of the store under test after the previous call
+  pend : Option (Op × String) := none     -- the call just issued and its result
+  pendRef : Option String := none         -- tables of the uncancelled reference store after that call
 
 def DState.hashFn (d : DState) (k : String) : Nat :=
   match d.hashes.find? (·.1 = k) with
@@ -68,6 +78,15 @@ def errTok : Err → String
   | .invalidTTL => "invalidttl" | .hashFnChanged => "hashchanged" | .importNil => "importnil"
 
 def join (l : List String) : String := ",".intercalate l
+
+def resTok : Res → String
+  | .ok => "ok" | .err e => errTok e | .ctxErr => "error"
+
+def opName : Op → String
+  | .put k _ => s!"Put({k})" | .delete k => s!"Delete({k})" | .pappend k c => s!"PrefixAppend({k},{c})"
+  | .premove k c => s!"PrefixRemove({k},{c})" | .acquire k .. => s!"Acquire({k})" | .renew k .. => s!"Renew({k})"
+  | .release k _ => s!"Release({k})" | .imp items => s!"Import({join (items.map (·.1))})"
+  | .removeKeys ks => s!"RemoveKeys({join ks})"
 
 def dumpOf (st : Store) (keys : List String) : String :=
   let ks := sortS keys
@@ -164,6 +183,67 @@ def step' (d : DState) (toks : List String) (rhs : String) : DState × Verdict :
           else if cands.any (fun (x : Nat × String) => x.2 == rhs) then (d, .ok)
           else (d, .spec s!"recovered state is not the state after any prefix n of the issued calls, {a} ≤ n ≤ {i}")
     | _, _ => (d, .bad "recovered args")
+  | "dl" :: _mode :: optoks =>
+    match parseOp optoks rhs with
+    | none => (d, .bad "dl op")
+    | some op =>
+      -- the model cannot predict where the context ended: `error` is explained by an ended context, every
+      -- other result must be the result of the call with a live context
+      let c : CtxEnd := if rhs = "error" then .beforeBegin else .alive
+      let m := resTok (stepCtx d.hashFn d.st op c).2
+      let d' := { d with pend := some (op, rhs), pendRef := none, keys := opKeys op ++ d.keys }
+      let implOk := rhs = "ok" ∨ rhs.startsWith "ok:"
+      if (implOk ∧ m = "ok") ∨ m = rhs then (d', .ok) else (d', .diff m)
+  | ["dlref"] =>
+    match d.pend, (rhs.splitOn " ").filter (· ≠ "") with
+    | some (op, _), [res, dump] =>
+      let r := stepCtx d.hashFn d.st op .alive
+      let m := s!"{resTok r.2} {dumpOf r.1 d.keys}"
+      let d' := { d with pendRef := some dump }
+      match dumpInconsistent d dump with
+      | some e => (d', .spec s!"reference store: {e}")
+      | none =>
+        let implOk := res = "ok" ∨ res.startsWith "ok:"
+        if (implOk ∧ resTok r.2 = "ok" ∨ resTok r.2 = res) ∧ dumpOf r.1 d.keys = dump then (d', .ok) else (d', .diff m)
+    | none, _ => (d, .bad "dlref without dl")
+    | _, _ => (d, .bad "dlref rhs")
+  | ["dlstate"] =>
+    match d.pend with
+    | none => (d, .bad "dlstate without dl")
+    | some (op, res) =>
+      let acked := res ≠ "error"
+      let applied := (stepCtx d.hashFn d.st op .alive).1
+      -- model: an unacknowledged call left nothing (unless the tables say otherwise: then follow them)
+      let newSt := if acked then applied else if rhs = d.last then d.st else applied
+      let d' := { d with st := newSt, last := rhs, pend := none, pendRef := none }
+      let modelCheck : Verdict :=
+        let m := dumpOf (if acked then applied else d.st) d.keys
+        if m ≠ rhs then .diff m else .ok
+      match dumpInconsistent d rhs with
+      | some e => (d', .spec e)
+      | none =>
+        if acked then
+          match d.pendRef with
+          | none => (d', .bad "acknowledged call without reference state")
+          | some r =>
+            if rhs = r then (d', modelCheck)
+            else if rhs = d.last then
+              (d', .spec s!"acknowledged {opName op} (returned {res}) is not in the store: its tables are unchanged, the uncancelled run of the acknowledged calls shows it")
+            else (d', .spec s!"store after acknowledged {opName op} (returned {res}) differs from the uncancelled run of the acknowledged calls")
+        else if rhs = d.last then (d', modelCheck)
+        else
+          match d.pendRef with
+          | none => (d', .bad "changed tables without reference state")
+          | some r =>
+            if rhs = r then (d', modelCheck)   -- committed although not acknowledged: allowed by the statement, not by the model
+            else (d', .spec s!"unacknowledged {opName op} left a partial effect: neither the previous tables nor those after the whole call")
+  | ["dlreopen"] =>
+    if rhs = "openfail" then (d, .spec "store does not re-open")
+    else match dumpInconsistent d rhs with
+      | some e => (d, .spec s!"after re-opening: {e}")
+      | none =>
+        if rhs ≠ d.last then (d, .spec "re-opened store differs from the store before closing: an acknowledged call is lost or an unacknowledged one appeared")
+        else (d, .ok)
   | ["get", k] =>
     let m := match d.st.simple k with | some v => tok v | none => "nil"
     (d, if m ≠ rhs then .diff m else .ok)
